@@ -31,6 +31,8 @@ func runC20(p *Prog, r *Report) {
 	ruleInvolution(p, r, le, "unicodedata", "mirroring", 400)
 	ruleLanguages(p, r, le, langCfg{pkg: "language", table: "languagesInfos", split: "knownLangsCount", canon: "canonMap", idType: "LangID", constPrefix: "Lang", floor: 290})
 	ruleLangID(p, r)
+	r.Explain = append(r.Explain, "R-TAB/otlang: harfbuzz.otLanguages (language subtag to OpenType language system tags, searched by a hand-written bisection and read over runs of equal keys) has non-decreasing keys that are all primary language subtags (2 or 3 lower case ASCII letters) and tags that are 0 or four printable ASCII bytes.")
+	ruleOTLanguages(p, r, le, "harfbuzz", "otLanguages", "language", "tag", 1000)
 	ruleBits(p, r, bitsCfg{pkg: "di", typ: "Direction",
 		masks: []string{"progression", "axisVertical", "verticalOrientationSet", "verticalSideways"},
 		setters: map[string][]string{
